@@ -173,6 +173,7 @@ def replay(module: str, func: str, args: dict) -> dict:
 		except Exception as e:  # noqa: BLE001
 			out['class'] = None
 			out['class_error'] = f'{type(e).__name__}: {e}'
+	out['cover'] = dict(prelude.COVER)
 	explain = getattr(mod, 'EXPLAIN', {})
 	if func in explain:
 		try:
